@@ -31,7 +31,7 @@ no_oob_push abs_buf_push_u8 abs_buf_push_u32 abs_buf_push_self bpush_self_no_ub 
 abs_buf_push_byte abs_buf_push_string abs_buf_push_word abs_buf_push_at pushat_error_truncates abs_buf_put abs_buf_putindex abs_buf_trim
 abs_buf_clear abs_buf_fill_all abs_buf_new_filled abs_buf_from_bytes abs_buf_slice no_oob_blit_decode no_oob_blit_dest abs_buf_blit_full
 no_oob_bitloc abs_buf_bit_set abs_buf_bit_clear abs_buf_bit_toggle abs_buf_bit_get bstep_abs buf_inv_reachable
-abs_new_filled abs_peek abs_clear_seq
+abs_new_filled abs_peek abs_clear_seq abs_join ajoin_not_indexed_err
 count_putKey_le pow2_step_bounded capacity_pow2_reachable capacity_pow2_run
 struct_inv_of_check struct_rawget_spec struct_get_spec struct_get_depth_cutoff struct_proto_irrelevant struct_next_visits_each_key_once
 struct_to_table_spec to_struct_certified thaw_freeze_same_map table_rawget_ignores_proto
@@ -315,7 +315,12 @@ class Gen:
                 for _ in range(r.range(0, 3)):
                     y = r.below(4)
                     parts.append("A%d" % A() if y == 0 else ("[%s]" % ",".join(str(r.range(0, 50)) for _ in range(r.range(0, 5))) if y == 1 else self.val(10)))
-                ops.append("aconcat A%d %s" % (a, " ".join(parts)))
+                if r.chance(1, 3):
+                    if r.chance(4, 5):
+                        parts = [q for q in parts if q[0] in "A["]      # array/join accepts indexed parts only
+                    ops.append("ajoin A%d %s" % (a, " ".join(parts)))
+                else:
+                    ops.append("aconcat A%d %s" % (a, " ".join(parts)))
             elif x < 670:
                 ops.append("afill A%d %s" % (a, self.val(20)) if r.chance(3, 4) else "afill A%d" % a)
             elif x < 700:
@@ -869,6 +874,16 @@ class Oracle:
                         add.append(pv(p))
                 a += add
                 exp = "ok"
+            elif name == "ajoin":
+                exp = "ok"
+                for p in t[2:]:
+                    if p.startswith("A"):
+                        a += list(a) if int(p[1:]) == ai else list(self.A[int(p[1:])])
+                    elif p.startswith("["):
+                        a += [pv("v" + v) for v in p[1:-1].split(",") if v != ""]
+                    else:
+                        exp = "err"        # not an array or tuple: raises after the earlier parts were appended
+                        break
             elif name == "afill":
                 v = pv(t[2]) if len(t) > 2 else "nil"
                 a[:] = [v] * n
